@@ -5,6 +5,7 @@ import (
 	"errors"
 	"fmt"
 	"os"
+	"sync"
 	"time"
 
 	"github.com/bvinc/go-sqlite-lite/sqlite3"
@@ -39,6 +40,9 @@ type sqlWriter struct {
 	leafPruneCh chan *pruneSignal
 	leafCh      chan *saveSignal
 	leafResult  chan *saveResult
+
+	// loops is done once both writer goroutines have returned
+	loops sync.WaitGroup
 }
 
 func (sql *SqliteDb) newSQLWriter() *sqlWriter {
@@ -58,7 +62,9 @@ func (sql *SqliteDb) newSQLWriter() *sqlWriter {
 }
 
 func (w *sqlWriter) start(ctx context.Context) {
+	w.loops.Add(2)
 	go func() {
+		defer w.loops.Done()
 		err := w.treeLoop(ctx)
 		if err != nil {
 			w.logger.Error("tree loop failed", "error", err)
@@ -66,6 +72,7 @@ func (w *sqlWriter) start(ctx context.Context) {
 		}
 	}()
 	go func() {
+		defer w.loops.Done()
 		err := w.leafLoop(ctx)
 		if err != nil {
 			w.logger.Error("leaf loop failed", "error", err)
